@@ -376,6 +376,8 @@ def c18_3(ctx: Ctx) -> RuleResult:
             _check_bound_order(ctx, res, c)
         # (e) per-variable / per-constraint arrays are broadcast to full length
         _check_broadcasts(ctx, res, c)
+        # (f) shape rejections look at the configured arrays themselves, not at values derived from them
+        _check_shape_rejections(ctx, res, c)
     for c in plain_models(ctx):
         ok = _model_config_frozen(c)
         res.add(None, c.node, "plain pydantic config model has model_config frozen=True", ok,
@@ -398,6 +400,46 @@ def c18_3(ctx: Ctx) -> RuleResult:
     res.add(norm, norm.node, "normalize rejects weight vectors whose sum is not positive", bool(raises), construct="normalize rejects non-positive sum")
     res.floor = 20
     return res
+
+
+def _check_shape_rejections(ctx: Ctx, res: RuleResult, c: Cls) -> None:
+    """A `raise` guarded by a comparison of `<array>.shape[...]` / `.size` / `.ndim` rejects an inconsistent
+    shape.  The array inspected must be a field as configured (`self.F`): a value that already went through a
+    transform or a broadcast can have acquired the expected shape (NumPy broadcasts a one-column matrix)."""
+    from ..util import bool_nnf, path_condition
+
+    for m in c.methods.values():
+        if not m.positional:
+            continue
+        selfp = ("param", m.qualname, m.positional[0])
+        for r_ in nodes_in(m, ast.Raise):
+            lits = []
+            for t_, pol in path_condition(ctx, m, r_):
+                g_ = bool_nnf(t_ if pol else ("unary", "not", t_))
+                lits.extend(g_[1] if g_[0] == "and" else [g_])
+            bases = []
+            atoms = []
+            for it in lits:
+                stack = [it]
+                while stack:
+                    x = stack.pop()
+                    if x[0] == "lit":
+                        atoms.append(x[1])
+                    elif x[0] in ("and", "or"):
+                        stack.extend(x[1])
+            for at_ in atoms:
+                for sub_ in subterms(at_):
+                    if isinstance(sub_, tuple) and sub_ and sub_[0] == "attr" and sub_[2] in ("shape", "ndim") and sub_[1] != selfp:
+                        bases.append(sub_[1])
+            for b in bases:
+                flds = [s_ for s_ in subterms(b) if s_[0] == "attr" and s_[1] == selfp]
+                if not flds:
+                    continue  # shape of something else (a parameter, another config)
+                derived = contains(b, lambda s_: s_[0] == "call" and not (s_[1][0] == "global" and s_[1][1].startswith("numpy.as")))
+                ok = not derived
+                res.add(m, r_, f"the shape test that rejects an inconsistent `{flds[0][2]}` inspects the configured array itself", ok,
+                        "" if ok else f"the rejected shape is that of `{show(b, 90)}`: a value derived from `{flds[0][2]}` (transformed / reconstructed), whose shape can differ from the configured one",
+                        construct=f"{c.name}.{m.name}: shape rejection of {flds[0][2]}")
 
 
 def _check_clamp(ctx: Ctx, res: RuleResult, c: Cls, fld: str, limit_attr: tuple[str, ...]) -> None:
